@@ -16,6 +16,7 @@ import (
 	"sort"
 	"strconv"
 	"strings"
+	"sync/atomic"
 	"syscall"
 	"time"
 
@@ -76,7 +77,33 @@ var c03SDLAdversarial = []string{
 	`extend enum Nope { A }`, `extend union Nope = A`, `extend input Nope { a: Int }`, `extend interface Nope { a: Int }`, `extend scalar S @d`, `type Query { a: Int } extend type Query @nope { b: Int }`,
 }
 
+// c03Ladder is a cycle-free ladder of n fragments in which every fragment spreads the next one twice: linear to check
+// with a memo, exponential without; the operation does not use it (resolving it would be exponential by nature).
+func c03Ladder(n int, used bool) string {
+	var b strings.Builder
+	if used {
+		b.WriteString("{ name ...L000 }\n")
+	} else {
+		b.WriteString("{ name }\n")
+	}
+	for i := 0; i < n; i++ {
+		if i == n-1 {
+			fmt.Fprintf(&b, "fragment L%03d on Query { count }\n", i)
+		} else {
+			fmt.Fprintf(&b, "fragment L%03d on Query { ...L%03d ... on Query { ...L%03d } }\n", i, i+1, i+1)
+		}
+	}
+	return b.String()
+}
+
+func init() {
+	c03ZooAdversarial = append(c03ZooAdversarial, c03Ladder(45, false), c03Ladder(64, false), c03Ladder(12, true))
+}
+
 var c03ZooAdversarial = []string{
+	// variables whose default is a variable (themselves, each other): a request error, not a walk that never ends
+	`query q($a: Int = $a) { add(a: $a, b: 1) }`, `query q($a: Int = $b, $b: Int = $a) { add(a: $a, b: $b) }`, `query q($n: String = $n) { hello(name: $n) items { label(prefix: $n) } }`,
+	`query q($a: Int = $b, $b: Int = 2) { add(a: $a, b: 1) }`,
 	// one response key selected twice with lists of different lengths behind it (arguments differ), in both orders
 	`{ x: firstN(n: 1) { id } x: firstN(n: 3) { size } }`, `{ x: firstN(n: 4) { id } x: firstN(n: 1) { size } }`,
 	`{ x: firstN(n: 2) { id } ... on Query { x: firstN(n: 5) { tags } } self { x: items { id } x: firstN(n: 0) { id } } }`,
@@ -977,10 +1004,29 @@ func c03Child(args []string) int {
 	defer f.Close()
 	// keep a runaway allocation from taking the machine down: the address space of the child is capped
 	_ = syscall.Setrlimit(syscall.RLIMIT_AS, &syscall.Rlimit{Cur: 6 << 30, Max: 6 << 30})
+	// per-input wall-clock watchdog (a call that does not come back outside the scanner): the child says which input it
+	// was and ends; the parent re-runs that input alone before anything is concluded from it
+	var cur, began int64 = -1, 0
+	limit := int64(20)
+	if tier == "thorough" {
+		limit = 90
+	}
+	go func() {
+		for {
+			time.Sleep(time.Second)
+			if i, b := atomic.LoadInt64(&cur), atomic.LoadInt64(&began); i >= 0 && time.Now().Unix()-b > limit && os.Getenv("VERIF_C03_NO_INPUT_WATCHDOG") == "" {
+				fmt.Fprintf(f, "T %d\n", i)
+				os.Exit(4)
+			}
+		}
+	}()
 	for i := from; i < to; i++ {
 		in := c03Gen(seed, tier, batch, i)
 		fmt.Fprintf(f, "B %d\n", i)
+		atomic.StoreInt64(&began, time.Now().Unix())
+		atomic.StoreInt64(&cur, int64(i))
 		status, stack := c03Run(in)
+		atomic.StoreInt64(&cur, -1)
 		if status != "ok" {
 			fmt.Fprintf(f, "S %d %s\n", i, strings.ReplaceAll(stack, "\n", "\\n"))
 		}
@@ -1066,6 +1112,8 @@ func runC03(c *run.Ctx) {
 							if len(parts) == 2 {
 								res.entries[i] = parts[1]
 							}
+						case strings.HasPrefix(line, "T "):
+							timedOut = true // the child's own per-input watchdog
 						case line == "DONE":
 							finished = true
 						}
@@ -1108,11 +1156,12 @@ func runC03(c *run.Ctx) {
 		}(b)
 	}
 	classes := map[string]int{}
+	confirmed := map[string]bool{}
 	total := 0
 	for k := 0; k < batches; k++ {
 		res := <-results
 		if res.lost != "" {
-			c.Inconclusive(res.lost)
+			c.Unfinished(res.lost)
 		}
 		for i := 0; i < per; i++ {
 			st, has := res.entries[i]
@@ -1138,8 +1187,20 @@ func runC03(c *run.Ctx) {
 				class = strings.Join(parts[:3], "|")
 			}
 			if kind == "timeout" {
-				// isolated re-run with a generous limit: only a confirmed no-return is a violation
-				if c03Confirm(self, c, res.batch, i, work) {
+				// isolated re-run with a generous limit: only a confirmed no-return is a violation (one confirmation per
+				// distinct input, and no more than a handful of confirmations per run)
+				key := in.Entry + "|" + in.Text
+				ok, seen := confirmed[key]
+				if !seen && len(confirmed) < 6 {
+					ok = c03Confirm(self, c, res.batch, i, work)
+					confirmed[key] = ok
+					seen = true
+				}
+				if !seen {
+					c.Count("timeouts_not_re_run(confirmation_budget_used)", 1)
+					continue
+				}
+				if ok {
 					class = "no-return|" + in.Entry
 				} else {
 					c.Inconclusive(fmt.Sprintf("batch %d input %d hit the batch watchdog but returned when run alone", res.batch, i))
@@ -1178,6 +1239,7 @@ func clip(s string, n int) string {
 func c03Confirm(self string, c *run.Ctx, batch, i int, work string) bool {
 	logp := filepath.Join(work, fmt.Sprintf("confirm-%d-%d.log", batch, i))
 	cmd := exec.Command(self, "child", "c03", fmt.Sprint(c.Seed), c.Tier, fmt.Sprint(batch), fmt.Sprint(i), fmt.Sprint(i+1), logp)
+	cmd.Env = append(os.Environ(), "VERIF_C03_NO_INPUT_WATCHDOG=1") // this run is the watchdog: 60 s for one input
 	_ = cmd.Start()
 	doneCh := make(chan error, 1)
 	go func() { doneCh <- cmd.Wait() }()
